@@ -659,6 +659,10 @@ impl FileStateMachine {
                                     }
                                 }
                             } else {
+                                // Same rule as apply_chunk: a write without TTL cancels the key's TTL.
+                                if let Some(ref lease) = self.lease {
+                                    lease.unregister(&key);
+                                }
                                 debug!("Replayed INSERT: key={:?}", key);
                             }
 
@@ -1203,6 +1207,9 @@ impl StateMachine for FileStateMachine {
                                 .as_ref()
                                 .expect("lease always initialized by NodeBuilder");
                             lease.register(key.clone(), *ttl);
+                        } else if let Some(ref lease) = self.lease {
+                            // A write without TTL cancels the TTL of the value it replaces.
+                            lease.unregister(key);
                         }
                         results.push(ApplyResult::success(entry.index));
                     }
@@ -1231,6 +1238,10 @@ impl StateMachine for FileStateMachine {
                         });
                         if cas_success {
                             data.insert(key.clone(), (new_value.clone(), entry.term));
+                            if let Some(ref lease) = self.lease {
+                                // The swapped-in value carries no TTL: cancel the old value's.
+                                lease.unregister(key);
+                            }
                         }
                     }
                 }
